@@ -97,7 +97,7 @@ func FinishVoid(fns ...func()) {
 // ForEach maps all elements from given generate but no output.
 func ForEach[T any](generate GenerateFunc[T], mapper ForEachFunc[T], opts ...Option) {
 	options := buildOptions(opts...)
-	panicChan := &onceChan{channel: make(chan any)}
+	panicChan := newOnceChan()
 	source := buildSource(generate, panicChan)
 	collector := make(chan any)
 	done := make(chan struct{})
@@ -120,6 +120,7 @@ func ForEach[T any](generate GenerateFunc[T], mapper ForEachFunc[T], opts ...Opt
 			panic(v)
 		case _, ok := <-collector:
 			if !ok {
+				panicChan.repanic()
 				return
 			}
 		}
@@ -130,7 +131,7 @@ func ForEach[T any](generate GenerateFunc[T], mapper ForEachFunc[T], opts ...Opt
 // and reduces the output elements with given reducer.
 func MapReduce[T, U, V any](generate GenerateFunc[T], mapper MapperFunc[T, U], reducer ReducerFunc[U, V],
 	opts ...Option) (V, error) {
-	panicChan := &onceChan{channel: make(chan any)}
+	panicChan := newOnceChan()
 	source := buildSource(generate, panicChan)
 	return mapReduceWithPanicChan(source, panicChan, mapper, reducer, opts...)
 }
@@ -138,7 +139,7 @@ func MapReduce[T, U, V any](generate GenerateFunc[T], mapper MapperFunc[T, U], r
 // MapReduceChan maps all elements from source, and reduce the output elements with given reducer.
 func MapReduceChan[T, U, V any](source <-chan T, mapper MapperFunc[T, U], reducer ReducerFunc[U, V],
 	opts ...Option) (V, error) {
-	panicChan := &onceChan{channel: make(chan any)}
+	panicChan := newOnceChan()
 	return mapReduceWithPanicChan(source, panicChan, mapper, reducer, opts...)
 }
 
@@ -258,6 +259,8 @@ func mapReduceWithPanicChan[T, U, V any](source <-chan T, panicChan *onceChan, m
 		for range output {
 			panic("more than one element written in reducer")
 		}
+		// a panic captured before returning must not be lost to a concurrently closed output
+		panicChan.repanic()
 	}()
 
 	// collector is used to collect data from mapper, and consume in reducer
@@ -374,8 +377,23 @@ type onceChan struct {
 	wrote   int32
 }
 
+// newOnceChan returns an onceChan whose single write never blocks,
+// even if nobody reads the channel anymore.
+func newOnceChan() *onceChan {
+	return &onceChan{channel: make(chan any, 1)}
+}
+
 func (oc *onceChan) write(val any) {
 	if atomic.CompareAndSwapInt32(&oc.wrote, 0, 1) {
 		oc.channel <- val
+	}
+}
+
+// repanic re-raises the written value if it has not been read yet.
+func (oc *onceChan) repanic() {
+	select {
+	case v := <-oc.channel:
+		panic(v)
+	default:
 	}
 }
